@@ -5,6 +5,7 @@
   (every frame object that was serialised into the output buffer, in order).
 -/
 import H2.Proofs.RecvEmits
+import H2.Props.C29
 
 namespace H2.C18
 open H2 H2.Gen H2.Conn
@@ -98,6 +99,30 @@ theorem C18_compression_error_witness (c : Conn) (rest : List DecRes) (block : B
   unfold decodeHeaders
   simp only [bind, M.bind, zoom, Hp.decode, h]
   exact ⟨_, rfl⟩
+
+/-- the invariant is the one every reachable state of the connection satisfies (C29) -/
+theorem inv_of_reachable (cfg : Config) (c : Conn) (h : C29.Reachable cfg c) (dec : List DecRes)
+    (hd : C17.DecResOk dec) : Inv (C17.feed c [] dec) :=
+  C17.C17_feed c [] dec (C29.C29_reachable_invariant cfg c h).1 hd
+
+/-- **C18 for every history**: after any sequence of public calls and deliveries, whatever the HPACK decoder will
+    answer and whatever bytes arrive, a `receive_data` that raises has written — after the replies to the frames
+    before the offending one, none of which is a GOAWAY — exactly one GOAWAY, last in the output buffer, with the
+    exception's error code and `highest_inbound_stream_id`; or it is the refused client preface and nothing changed.
+    A `receive_data` that returns has written no GOAWAY. -/
+theorem C18_every_history (cfg : Config) (c : Conn) (h : C29.Reachable cfg c) (dec : List DecRes)
+    (hd : C17.DecResOk dec) (data : Bytes) :
+    (∀ e c', receiveData data (C17.feed c [] dec) = (.error e, c') →
+      (FrameBuffer.addData (C17.feed c [] dec).fb data = .error e ∧ c' = C17.feed c [] dec) ∨
+      (∃ fs k cls sid evs, FramesOk fs ∧
+        c'.sent = (C17.feed c [] dec).sent ++ fs ++ [Frame.goaway c'.highestIn k []] ∧
+        e = .h2 cls (some k) sid evs ∧ cls.isSub .ProtocolError = true ∧ 0 ≤ k ∧ k < 4294967296 ∧
+        c'.cstate = .CLOSED ∧
+        ∃ pre b, (Frame.goaway c'.highestIn k []).serialize? = some b ∧ c'.out = pre ++ b)) ∧
+    (∀ evs c', receiveData data (C17.feed c [] dec) = (.ok evs, c') →
+      ∃ fs, FramesOk fs ∧ c'.sent = (C17.feed c [] dec).sent ++ fs) :=
+  ⟨fun e c' hr => C18_one_goaway _ data (inv_of_reachable cfg c h dec hd) e c' hr,
+   fun evs c' hr => C18_no_goaway_without_error _ data (inv_of_reachable cfg c h dec hd) evs c' hr⟩
 
 /-- non-vacuity: a fresh server satisfies the invariant -/
 example : Inv (Conn.init { client := false }) := by
